@@ -12,10 +12,18 @@
 //            dc  regDecouple            dl<n> delay(n)                st<k> stall(condition pin k)
 //            ex<r> extendWidth(ratio r) re<r> reduceWidth(ratio r)
 //            ff<d> strm::fifo(minDepth d, DontCare)   fz<d> strm::fifo(minDepth d, latency 0 = fall-through)
+//            px<r> Packet.h widthExtend(ratio r)      pr<r> Packet.h widthReduce(ratio r)
+//            pm<t> Packet.h matchWidth(to t digits) -- stand-in, see below: the real template does not compile
+//   eb=1    : the stream additionally carries scl::EmptyBits (RvPacketStream<UInt, TxId, EmptyBits>); the plan lines then
+//             have a 7th field, the emptyBits value of the beat, and the E lines one more column on each side.
 //   hold=1  : the producer keeps valid/payload/eop/meta of a beat that was offered but not accepted
 //             (the plan's beat of that cycle is skipped); hold=0: the plan is applied verbatim.
 //   eopg=g>0: the eop of the i-th (1-based) offered valid beat is the plan's eop AND (i mod g == 0), so that
 //             packet lengths are multiples of g (packets aligned to the extendWidth groups); g=0: verbatim.
+//   prod=seq: the beat fields of the plan lines form a SEQUENCE of items (beats and idle slots) instead of being
+//             cycle indexed: the producer moves on to the next item when the current beat was accepted (or after one
+//             cycle for an idle slot), so packets arrive intact with pauses of exactly the planned length in front of
+//             the planned beats.  ready_out / stall bits stay cycle indexed.  (implies hold)
 //   polite=1: a stall condition is forced low in the cycle after one in which a beat was waiting
 //             (valid & !ready) at that stall stage's own output; polite=0: verbatim.
 //
@@ -24,7 +32,8 @@
 //   E <valid_in> <payload_in> <eop_in> <meta_in> <ready_out> <stall bits|-> | <ready_in> <valid_out> <payload_out> <eop_out> <meta_out>
 //      one line per clock cycle, values sampled immediately before the rising edge (WaitClock::DURING),
 //      i.e. exactly what the registers clocked by that edge see.  payload/eop/meta of the output are
-//      printed as '-' while valid_out = 0.  Payloads are printed as base-2^w digits, least significant first.
+//      printed as '-' while valid_out = 0.  Payloads are printed as base-2^w digits, least significant first; a digit
+//      with an undefined bit is printed as X (Packet.h widthExtend leaves the slots above a short last beat stale/undefined).
 //   X <id> error=<text>        the real library threw while building / simulating this chain
 #include "vh.h"
 #include <gatery/scl/stream/strm.h>
@@ -36,15 +45,15 @@ using gtry::scl::strm::valid; using gtry::scl::strm::ready; using gtry::scl::str
 
 namespace {
 
-using S = scl::RvPacketStream<UInt, scl::TxId>;
+using gtry::scl::strm::emptyBits;
 
-struct PlanLine { bool v; std::vector<uint64_t> d; bool e; uint64_t m; bool r; std::string ctl; };
+struct PlanLine { bool v; std::vector<uint64_t> d; bool e; uint64_t m; bool r; std::string ctl; uint64_t eb = 0; };
 
 struct Case {
 	std::string header;          // everything after "C "
 	std::string id;
 	size_t w = 4, mw = 3, min = 1, n = 0, eopg = 0;
-	bool hold = true, polite = true, pp = true;
+	bool hold = true, polite = true, pp = true, eb = false, seq = false;
 	std::vector<std::string> chain;
 	std::vector<PlanLine> plan;
 };
@@ -68,11 +77,14 @@ std::string digitsStr(const std::vector<uint64_t> &d)
 
 template<class H> std::string payloadStr(const H &h, size_t w, size_t digits)
 {
-	if (!h.allDefined()) return "X";
-	uint64_t v = (uint64_t)h.value();
-	std::vector<uint64_t> d(digits);
-	for (size_t i = 0; i < digits; i++) d[i] = (v >> (i * w)) & ((1ull << w) - 1);
-	return digitsStr(d);
+	uint64_t v = (uint64_t)h.value(), def = (uint64_t)h.defined(), mask = (1ull << w) - 1;
+	std::string s;
+	for (size_t i = 0; i < digits; i++) {
+		if (i) s += ".";
+		if (((def >> (i * w)) & mask) != mask) s += "X";
+		else s += std::to_string((v >> (i * w)) & mask);
+	}
+	return s;
 }
 
 uint64_t packDigits(const std::vector<uint64_t> &d, size_t w)
@@ -82,14 +94,17 @@ uint64_t packDigits(const std::vector<uint64_t> &d, size_t w)
 	return v;
 }
 
-void runCase(const Case &c, std::ostream &out)
+template<bool EB>
+void runCaseT(const Case &c, std::ostream &out)
 {
+	using S = std::conditional_t<EB, scl::RvPacketStream<UInt, scl::TxId, scl::EmptyBits>, scl::RvPacketStream<UInt, scl::TxId>>;
 	DesignScope design;
 	Clock clk({ .absoluteFrequency = 100'000'000 });
 	ClockScope cs(clk);
 
 	S in{ UInt(BitWidth(c.w * c.min)) };
 	txid(in) = BitWidth(c.mw);
+	if constexpr (EB) emptyBits(in) = BitWidth::count(c.w * c.min);
 	pinIn(in, "in");
 
 	// neutral first hop so that the pinned stream object is never moved from
@@ -129,6 +144,28 @@ void runCase(const Case &c, std::ostream &out)
 			digits /= arg;
 			keep.emplace_back(new S(scl::strm::reduceWidth(std::move(*cur), BitWidth(c.w * digits))));
 		}
+		else if (kind == "px") {
+			digits *= arg;
+			keep.emplace_back(new S(scl::strm::widthExtend(std::move(*cur), BitWidth(c.w * digits))));
+		}
+		else if (kind == "pr") {
+			if (arg == 0 || digits % arg) throw std::runtime_error("harness: reduce ratio does not divide the width");
+			digits /= arg;
+			keep.emplace_back(new S(scl::strm::widthReduce(std::move(*cur), BitWidth(c.w * digits))));
+		}
+		else if (kind == "pm") {
+			if (arg == 0 || (arg > digits ? arg % digits : digits % arg)) throw std::runtime_error("harness: matchWidth target is not a multiple / divisor");
+			// scl::strm::matchWidth itself does not compile (Packet.h:798 calls in.width() on the Stream object; reported).
+			// Stand-in: the same three-way choice on in->width(), calling the REAL widthExtend / widthReduce.
+#ifdef C16_REAL_MATCHWIDTH
+			keep.emplace_back(new S(scl::strm::matchWidth(std::move(*cur), BitWidth(c.w * arg))));
+#else
+			if (arg > digits) keep.emplace_back(new S(scl::strm::widthExtend(std::move(*cur), BitWidth(c.w * arg))));
+			else if (arg < digits) keep.emplace_back(new S(scl::strm::widthReduce(std::move(*cur), BitWidth(c.w * arg))));
+			else { keep.emplace_back(new S(constructFrom(*cur))); *keep.back() <<= *cur; }
+#endif
+			digits = arg;
+		}
 		else if (kind == "ff") keep.emplace_back(new S(scl::strm::fifo(std::move(*cur), arg, scl::FifoLatency::DontCare())));
 		else if (kind == "fz") keep.emplace_back(new S(scl::strm::fifo(std::move(*cur), arg, scl::FifoLatency(0))));
 		else throw std::runtime_error("harness: unknown stage " + tok);
@@ -143,7 +180,7 @@ void runCase(const Case &c, std::ostream &out)
 	sim::ReferenceSimulator s(false);
 	size_t nStall = stallPins.size();
 	s.addSimulationProcess([&]()->SimProcess {
-		size_t offered = 0;
+		size_t offered = 0, itemIdx = 0;
 		auto take = [&](const PlanLine &p) {
 			PlanLine b = p;
 			if (b.v) { offered++; if (c.eopg) b.e = b.e && (offered % c.eopg == 0); }
@@ -156,6 +193,7 @@ void runCase(const Case &c, std::ostream &out)
 			simu(*in) = packDigits(beat.d, c.w);
 			simu(eop(in)) = beat.e ? '1' : '0';
 			simu(txid(in)) = beat.m;
+			if constexpr (EB) simu(emptyBits(in)) = beat.eb;
 			simu(ready(o)) = ctl.r ? '1' : '0';
 			for (size_t k = 0; k < nStall; k++) simu(stallPins[k]) = st[k] ? '1' : '0';
 		};
@@ -171,18 +209,29 @@ void runCase(const Case &c, std::ostream &out)
 			std::string rin = bitStr(simu(ready(in)));
 			std::string vo = bitStr(simu(valid(o)));
 			out << "E " << (curBeat.v ? 1 : 0) << " " << digitsStr(curBeat.d) << " " << (curBeat.e ? 1 : 0) << " " << curBeat.m << " "
-				<< (p.r ? 1 : 0) << " " << ctlStr << " | " << rin << " " << vo << " ";
-			if (vo == "0") out << "- - -\n";
+				<< (p.r ? 1 : 0) << " " << ctlStr;
+			if constexpr (EB) out << " " << curBeat.eb;
+			out << " | " << rin << " " << vo << " ";
+			if (vo == "0") out << (EB ? "- - - -\n" : "- - -\n");
 			else {
 				auto m = simu(txid(o));
 				out << payloadStr(simu(*o), c.w, digits) << " " << bitStr(simu(eop(o))) << " "
-					<< (m.allDefined() ? std::to_string((uint64_t)m.value()) : std::string("X")) << "\n";
+					<< (m.allDefined() ? std::to_string((uint64_t)m.value()) : std::string("X"));
+				if constexpr (EB) { auto e = simu(emptyBits(o)); out << " " << (e.allDefined() ? std::to_string((uint64_t)e.value()) : std::string("X")); }
+				out << "\n";
 			}
 			if (i + 1 >= c.plan.size()) break;
 			const PlanLine &nx = c.plan[i + 1];
 			// producer: keep an offered, not yet accepted beat (hold=1)
-			bool keepBeat = c.hold && curBeat.v && rin != "1";
-			if (!keepBeat) curBeat = take(nx);
+			bool keepBeat = (c.hold || c.seq) && curBeat.v && rin != "1";
+			if (c.seq) {
+				if (!keepBeat) {
+					itemIdx++;
+					if (itemIdx < c.plan.size()) curBeat = take(c.plan[itemIdx]);
+					else { curBeat.v = false; curBeat.e = false; }
+				}
+			}
+			else if (!keepBeat) curBeat = take(nx);
 			// stall conditions: must not rise while a beat waits at the stall stage's own output (polite=1)
 			for (size_t k = 0; k < nStall; k++) {
 				bool waiting = false;
@@ -198,6 +247,11 @@ void runCase(const Case &c, std::ostream &out)
 	s.compileProgram(design.getCircuit());
 	s.powerOn();
 	s.advance(hlim::ClockRational(c.plan.size() + 4, 1) / clk.absoluteFrequency());
+}
+
+void runCase(const Case &c, std::ostream &out)
+{
+	if (c.eb) runCaseT<true>(c, out); else runCaseT<false>(c, out);
 }
 
 bool parseHeader(const std::string &line, Case &c)
@@ -218,6 +272,8 @@ bool parseHeader(const std::string &line, Case &c)
 		else if (k == "hold") c.hold = v == "1";
 		else if (k == "polite") c.polite = v == "1";
 		else if (k == "pp") c.pp = v == "1";
+		else if (k == "eb") c.eb = v == "1";
+		else if (k == "prod") c.seq = v == "seq";
 		else if (k == "eopg") c.eopg = strtoull(v.c_str(), nullptr, 10);
 		else if (k == "chain") { c.chain.clear(); if (v != "-") c.chain = split(v, ','); }
 	}
@@ -239,12 +295,13 @@ int main(int argc, char **argv)
 		if (line[0] == 'C') { cases.emplace_back(); parseHeader(line, cases.back()); }
 		else if (line[0] == 'P' && !cases.empty()) {
 			std::stringstream ss(line.substr(2));
-			std::string v, d, e, m, r, ctl;
-			ss >> v >> d >> e >> m >> r >> ctl;
+			std::string v, d, e, m, r, ctl, ebs;
+			ss >> v >> d >> e >> m >> r >> ctl >> ebs;
 			PlanLine p;
 			p.v = v == "1"; p.e = e == "1"; p.r = r == "1"; p.m = strtoull(m.c_str(), nullptr, 10);
 			for (auto &x : split(d, '.')) p.d.push_back(strtoull(x.c_str(), nullptr, 10));
 			p.ctl = ctl == "-" ? "" : ctl;
+			p.eb = ebs.empty() ? 0 : strtoull(ebs.c_str(), nullptr, 10);
 			cases.back().plan.push_back(p);
 		}
 	}
